@@ -5,6 +5,7 @@ from __future__ import annotations
 import collections
 import hashlib
 import importlib
+import copy
 import json
 import multiprocessing as mp
 import os
@@ -135,7 +136,7 @@ def replay_file(path, as_json=False):
     runs = []
     for _ in range(2):
         factor = 3 if getattr(mod, "OWNS_TIMEOUTS", False) else 10     # a hang is re-run alone with a larger limit before it is believed
-        res = run_one(mod, rec["payload"], limit=getattr(mod, "CASE_LIMIT", CASE_LIMIT_S) * factor, fn=rec.get("fn", "run_case"))
+        res = run_one(mod, copy.deepcopy(rec["payload"]), limit=getattr(mod, "CASE_LIMIT", CASE_LIMIT_S) * factor, fn=rec.get("fn", "run_case"))
         runs.append(sorted({signature(prop, v) for v in res["violations"]})
                     + (["<timeout>"] if res.get("timeout") else [])
                     + (["<harness_error>"] if res.get("harness_error") else []))
